@@ -65,7 +65,8 @@ Ltac close Hi Ha Hc Hpv Hpc Ht w v facts :=
 
 Ltac unfold_ops :=
   unfold step_ok, step_m, step_s; unfold assign_body, assign_null, swap_m; unfold swap_body;
-  unfold closure_ctor, null_ctor, null_target_ctor, copy_ctor, move_ctor, dtor, call_m, bool_m, end_of_storage;
+  unfold closure_ctor, null_ctor, null_target_ctor, copy_ctor, move_ctor, conv_copy_ctor, conv_move_ctor, private_ctor,
+         dtor, call_m, bool_m, end_of_storage;
   unfold copy_thunk, relocate_thunk, destroy_thunk, invoke_thunk.
 
 Lemma step_swap_ok : forall stateless n s a w v, inv s -> rel s a -> in_range n (OSwap w v) = true ->
@@ -205,6 +206,46 @@ Proof.
   one_wrapper Hi Ha Hc Hpv Hpc Ht w.
 Qed.
 
+(* the converting constructors with a persistent source of another capacity: w <> v is part of in_range *)
+Ltac two_distinct Hi Ha Hc Hpv Hpc Ht Hr w v :=
+  let Hwv := fresh "Hwv" in let Hwv' := fresh "Hwv'" in let Hvw' := fresh "Hvw'" in
+  assert (Hwv' : Nat.eqb w v = false)
+    by (cbn [in_range] in Hr; apply andb_true_iff in Hr; destruct Hr as [_ Hr]; apply negb_true_iff in Hr; exact Hr);
+  assert (Hwv : w <> v) by (apply Nat.eqb_neq; exact Hwv');
+  assert (Hvw' : Nat.eqb v w = false) by (apply Nat.eqb_neq; congruence);
+  let Hv1 := fresh "Hv1" in let Hc1 := fresh "Hc1" in let id1 := fresh "id" in let c1 := fresh "c" in
+  let Hv2 := fresh "Hv2" in let Hc2 := fresh "Hc2" in let id2 := fresh "id" in let c2 := fresh "c" in
+  destruct (winv_cases _ (WI w) (Hi w)) as [[Hv1 Hc1]|[id1 [c1 [Hv1 Hc1]]]];
+  destruct (winv_cases _ (WI v) (Hi v)) as [[Hv2 Hc2]|[id2 [c2 [Hv2 Hc2]]]];
+  rewrite <- ?(Ha w), <- ?(Ha v); unfold abs_slot;
+  ev_with ltac:(rewrite ?Hv1, ?Hc1, ?Hv2, ?Hc2, ?Ht, ?Hpv, ?Hpc, ?Hwv', ?Hvw');
+  close Hi Ha Hc Hpv Hpc Ht w v ltac:(rewrite ?Hv1, ?Hc1, ?Hv2, ?Hc2, ?Ht, ?Hpv, ?Hpc, ?Hwv', ?Hvw', ?Nat.eqb_refl).
+
+Lemma step_conv_copy_ctor_w_ok : forall stateless n s a w v, inv s -> rel s a -> in_range n (OConvCopyCtorW w v) = true ->
+  step_ok stateless n s a (OConvCopyCtorW w v).
+Proof.
+  intros stateless n s a w v [Hi [Hpv [Hpc Ht]]] [Ha Hc] Hr. unfold_ops. rewrite Hr. cbn [negb].
+  two_distinct Hi Ha Hc Hpv Hpc Ht Hr w v.
+Qed.
+Lemma step_conv_move_ctor_w_ok : forall stateless n s a w v, inv s -> rel s a -> in_range n (OConvMoveCtorW w v) = true ->
+  step_ok stateless n s a (OConvMoveCtorW w v).
+Proof.
+  intros stateless n s a w v [Hi [Hpv [Hpc Ht]]] [Ha Hc] Hr. unfold_ops. rewrite Hr. cbn [negb].
+  two_distinct Hi Ha Hc Hpv Hpc Ht Hr w v.
+Qed.
+Lemma step_conv_copy_assign_ok : forall stateless n s a w v, inv s -> rel s a -> in_range n (OConvCopyAssign w v) = true ->
+  step_ok stateless n s a (OConvCopyAssign w v).
+Proof.
+  intros stateless n s a w v [Hi [Hpv [Hpc Ht]]] [Ha Hc] Hr. unfold_ops. rewrite Hr. cbn [negb].
+  two_distinct Hi Ha Hc Hpv Hpc Ht Hr w v.
+Qed.
+Lemma step_conv_move_assign_ok : forall stateless n s a w v, inv s -> rel s a -> in_range n (OConvMoveAssign w v) = true ->
+  step_ok stateless n s a (OConvMoveAssign w v).
+Proof.
+  intros stateless n s a w v [Hi [Hpv [Hpc Ht]]] [Ha Hc] Hr. unfold_ops. rewrite Hr. cbn [negb].
+  two_distinct Hi Ha Hc Hpv Hpc Ht Hr w v.
+Qed.
+
 (** one step, any operation (out-of-range wrapper indices are skipped on both sides) *)
 Lemma step_refines : forall stateless n s a o, inv s -> rel s a -> step_ok stateless n s a o.
 Proof.
@@ -226,6 +267,10 @@ Proof.
     + apply step_ctor_null_ok; assumption.
     + apply step_assign_null_fn_ok; assumption.
     + apply step_ctor_null_fn_ok; assumption.
+    + apply step_conv_copy_ctor_w_ok; assumption.
+    + apply step_conv_move_ctor_w_ok; assumption.
+    + apply step_conv_copy_assign_ok; assumption.
+    + apply step_conv_move_assign_ok; assumption.
   - exists s. unfold step_m, step_s. rewrite Hr. cbn [negb fst snd]. repeat split; try apply Hinv; apply Hrel.
 Qed.
 
@@ -409,6 +454,58 @@ Proof.
   - rewrite H3. red_state. rewrite Nat.eqb_refl. reflexivity.
   - intros i H4 H5. rewrite H3. red_state.
     destruct (Nat.eqb_spec i v) as [->|_]; [congruence|]. destruct (Nat.eqb_spec i w) as [->|_]; [congruence|reflexivity].
+Qed.
+
+(* the converting constructors (source = a persistent wrapper of another capacity, necessarily another object) behave like
+   the plain ones: copy duplicates, move transfers and empties the source -- as constructor and through operator= *)
+Lemma conv_in_range : forall n w v, (w < n)%nat -> (v < n)%nat -> w <> v ->
+  (Nat.ltb w n && Nat.ltb v n && negb (Nat.eqb w v))%bool = true.
+Proof.
+  intros n w v Hw Hv Hne. apply andb_true_iff; split; [apply andb_true_iff; split; apply Nat.ltb_lt; assumption|].
+  apply negb_true_iff. apply Nat.eqb_neq. exact Hne.
+Qed.
+
+Theorem conv_copy_duplicates : forall stateless n s w v, inv s -> (w < n)%nat -> (v < n)%nat -> w <> v ->
+  forall o, o = OConvCopyCtorW w v \/ o = OConvCopyAssign w v ->
+  exists s', step_m stateless n s o = Good (s', TAck) /\ inv s' /\
+             abs_slot s' w = abs_slot s v /\ abs_slot s' v = abs_slot s v /\
+             (forall i, i <> w -> abs_slot s' i = abs_slot s i).
+Proof.
+  intros stateless n s w v Hinv Hw Hv Hne o Ho.
+  destruct (step_on_abs stateless n s o Hinv) as [s' [H1 [H2 H3]]].
+  assert (Hr : in_range n o = true) by (destruct Ho as [-> | ->]; cbn [in_range]; apply conv_in_range; assumption).
+  assert (Hvw : Nat.eqb v w = false) by (apply Nat.eqb_neq; congruence).
+  unfold step_s in *. rewrite Hr in *. cbn [negb] in *.
+  exists s'. split; [|split; [exact H2|]].
+  - rewrite H1. destruct Ho as [-> | ->]; reflexivity.
+  - assert (H3' : forall i, abs_slot s' i = slots (aset (abs_of s) w (slots (abs_of s) v)) i)
+      by (intros i; rewrite H3; destruct Ho as [-> | ->]; reflexivity).
+    repeat split.
+    + rewrite H3'. red_state. rewrite Nat.eqb_refl. reflexivity.
+    + rewrite H3'. red_state. rewrite Hvw. reflexivity.
+    + intros i Hi. rewrite H3'. red_state. destruct (Nat.eqb_spec i w) as [->|_]; [congruence|reflexivity].
+Qed.
+
+Theorem conv_move_transfers : forall stateless n s w v, inv s -> (w < n)%nat -> (v < n)%nat -> w <> v ->
+  forall o, o = OConvMoveCtorW w v \/ o = OConvMoveAssign w v ->
+  exists s', step_m stateless n s o = Good (s', TAck) /\ inv s' /\
+             abs_slot s' w = abs_slot s v /\ abs_slot s' v = None /\
+             (forall i, i <> w -> i <> v -> abs_slot s' i = abs_slot s i).
+Proof.
+  intros stateless n s w v Hinv Hw Hv Hne o Ho.
+  destruct (step_on_abs stateless n s o Hinv) as [s' [H1 [H2 H3]]].
+  assert (Hr : in_range n o = true) by (destruct Ho as [-> | ->]; cbn [in_range]; apply conv_in_range; assumption).
+  assert (Hwv : Nat.eqb w v = false) by (apply Nat.eqb_neq; exact Hne).
+  unfold step_s in *. rewrite Hr in *. cbn [negb] in *.
+  exists s'. split; [|split; [exact H2|]].
+  - rewrite H1. destruct Ho as [-> | ->]; rewrite Hwv; reflexivity.
+  - assert (H3' : forall i, abs_slot s' i = slots (aset (aset (abs_of s) w (slots (abs_of s) v)) v None) i)
+      by (intros i; rewrite H3; destruct Ho as [-> | ->]; rewrite Hwv; reflexivity).
+    repeat split.
+    + rewrite H3'. red_state. rewrite Hwv, Nat.eqb_refl. reflexivity.
+    + rewrite H3'. red_state. rewrite Nat.eqb_refl. reflexivity.
+    + intros i Hi Hi'. rewrite H3'. red_state.
+      destruct (Nat.eqb_spec i v) as [->|_]; [congruence|]. destruct (Nat.eqb_spec i w) as [->|_]; [congruence|reflexivity].
 Qed.
 
 (* reset empties *)
